@@ -271,7 +271,7 @@ def run_schedules(spec: dict, seeds: list[int], scratch: str, timeout: float = 3
         return []
     ctx = mp.get_context("fork")
     parent, child = ctx.Pipe(duplex=False)
-    hard = len(plan) * (timeout * 4 + 20) + 60
+    hard = len(plan) * (timeout + 10) + timeout * 3 + 60
     dump_path = os.path.join(scratch, f"stuck-{os.getpid()}-{id(plan)}.txt")
     proc = ctx.Process(target=_child_plan, args=(child, spec, plan, scratch, timeout, confirm_hangs, stop_on_hang, dump_path, hard - 20),
                        daemon=True)
